@@ -508,7 +508,12 @@ def run_check(prop, spec, tier, seed):
         if kf['id'] not in printed:
             printed.add(kf['id'])
             print('KNOWN-FINDING: property=%s %s' % (prop, kf['what']))
+    shown = set()
     for path, rec in violations:
+        key = (rec['scenario'], rec['what'][:80])
+        if key in shown:
+            continue
+        shown.add(key)
         print('VIOLATION property=%s replay=%s' % (prop, path))
         log('  %s %s %s values=%s' % (rec['scenario'], rec['shape'], rec['what'], [x for _, x in rec['values']]))
     log('[%s %s] shapes=%d paths=%d completed=%d nontrivial=%d queries=%d solver=%.1fs selftest=%d/%d wall=%.1fs' % (
